@@ -33,9 +33,11 @@ ASSUMPTIONS = [
 ]
 
 DECIDERS = {
-    "CONST": ["CONST[X]", "CONST[abc_d]", "CONST[5]", 'CONST["5"]', 'CONST["a b"]', "CONST[1.5]", "CONST[true_north]", "CONST[v1]"],
+    "CONST": ["CONST[X]", "CONST[abc_d]", "CONST[5]", 'CONST["5"]', 'CONST["a b"]', "CONST[1.5]", "CONST[true_north]", "CONST[v1]", "CONST[9007199254740993]",
+              "CONST[-18446744073709551615]", "CONST[0]", "CONST[0.0]", "CONST[false]"],
     "ENUM": ["ENUM[A,B]", "ENUM[ACTIVE,ARCHIVED,DONE]", "ENUM[5,6]", "ENUM[1,10,100]", "ENUM[truecolor,indexed]", 'ENUM["a b",c]', "ENUM[A,AB,ABC]",
-             "ENUM[falsey,nullable,vsx]", "ENUM[1.5,1.55]", "ENUM[x.y,a-b]"],
+             "ENUM[falsey,nullable,vsx]", "ENUM[1.5,1.55]", "ENUM[x.y,a-b]", "ENUM[9223372036854775807,18446744073709551615]",
+             "ENUM[12345678901234567890,12345678901234567891]", "ENUM[0,1]", "ENUM[true,false]"],
     "BOOLEAN": ["TYPE[BOOLEAN]"],
     "NUMBER": ["TYPE[NUMBER]"],
     "DATE": ["DATE"],
